@@ -582,6 +582,37 @@ def check_merge(cx: Cx, ob: Ob) -> None:
     if fn.param("record") is None or fn.param("into") is None:
         ob.undecide("_merge signature changed")
         return
+    # the lists _merge appends to / sorts in place are LISTS: the model must declare them so (pydantic keeps a tuple
+    # given for a Sequence[str] / Collection[str] field a tuple, and the in-place update then raises AttributeError)
+    import ast as _ast
+
+    rec_cls = cx.model.classes.get(f"{API}.Record")
+    grown = {ev.a[1][1][2] for ev, _ in s.walk() if ev.kind == "expr" and op(ev.a) == "call" and op(ev.a[1]) == "attr" and ev.a[1][2] in ("append", "extend", "sort", "insert", "remove") and op(ev.a[1][1]) == "attr" and ev.a[1][1][1] == into and ev.a[1][1][2] in LISTS}
+    for f_ in sorted(grown):
+        ann = rec_cls.fields.get(f_, (None, None))[0] if rec_cls is not None else None
+        ann_line = ann.lineno if ann is not None else rec_cls.node.lineno
+        if isinstance(ann, _ast.Name) and ann.id in rec_cls.module.constants:
+            ann = rec_cls.module.constants[ann.id]  # a module-level alias of the type
+        txt = _ast.unparse(ann).replace(" ", "") if ann is not None else ""
+        head = txt.split("[")[0].rsplit(".", 1)[-1]
+        if head == "Annotated" and isinstance(ann, _ast.Subscript) and isinstance(ann.slice, _ast.Tuple) and ann.slice.elts:
+            # Annotated[T, AfterValidator(list)]: whatever sequence is given, the model keeps list(<it>)
+            if any(isinstance(e, _ast.Call) and _ast.unparse(e.func).rsplit(".", 1)[-1] in ("AfterValidator", "BeforeValidator", "PlainValidator") and len(e.args) == 1 and _ast.unparse(e.args[0]) == "list" for e in ann.slice.elts[1:]):
+                head = "list"
+            else:
+                head = _ast.unparse(ann.slice.elts[0]).split("[")[0].rsplit(".", 1)[-1]
+        if head in ("list", "List"):
+            ob.site(f"src/curies/{rec_cls.module.relpath}:{ann_line} {rec_cls.qualname}", f"{f_}: {txt}, updated in place by _merge")
+        elif head in ("Sequence", "Collection", "Iterable", "tuple", "Tuple", "Container", "Sized", "Reversible", "AbstractSet", "Set", "set", "frozenset", "FrozenSet"):
+            ob.violate(
+                rec_cls.qualname,
+                f"src/curies/{rec_cls.module.relpath}:{ann_line}",
+                f"Record.{f_} is declared `{txt}` while _merge updates it in place with list methods: pydantic keeps a tuple (or any other sequence) given for such a field as it is, so merging into a record that was built from a tuple of synonyms raises AttributeError instead of adding the names - after which the record list and the lookup tables may already disagree",
+                witness=f"c = Converter([Record(prefix='a', uri_prefix='u', {f_}=('x',))]); c.add_prefix('a', 'u', {f_}=['y'], merge=True)",
+                detail=f"field-type:{f_}",
+            )
+        elif txt:
+            ob.undecide(f"Record.{f_} is declared `{txt}`; whether _merge's in-place list updates apply to every value the model keeps is not decided")
     for ev, ctx in s.walk():
         if ev.kind == "store" and op(ev.a) == "attr":
             if ev.a[1] == into and ev.a[2] in CANON:
@@ -755,6 +786,25 @@ def d6(cx: Cx, ob: Ob) -> None:
 def check_match_record(cx: Cx, ob: Ob) -> None:
     fn = cx.fn(f"{CONV}._match_record", ob.id)
     s = cx.summary(fn, ob.id)
+    # the records that match are handed to add_record BY KEY (`record._key`), and add_record looks the one to merge
+    # into up by that key: the key must tell any two records of a converter apart - exact field values do (names
+    # are unique), case-folded / stripped ones do not ('GO' and 'go' are two legal records)
+    import ast as _ast
+
+    rc = cx.model.classes.get(f"{API}.Record")
+    km = rc.methods.get("_key") if rc is not None else None
+    if km is not None and any(isinstance(n_, _ast.Attribute) and n_.attr == "_key" for n_ in _ast.walk(fn.node)):
+        lossy = [n_ for n_ in _ast.walk(km.node) if isinstance(n_, _ast.Call) and isinstance(n_.func, _ast.Attribute) and n_.func.attr in ("casefold", "lower", "upper", "strip", "lstrip", "rstrip", "title", "swapcase", "capitalize")]
+        if lossy:
+            ob.violate(
+                km.qualname,
+                f"src/curies/{km.module.relpath}:{lossy[0].lineno}",
+                f"Record._key is built from transformed field values (`{_ast.unparse(lossy[0])[:50]}`): _match_record reports matches under this key and add_record finds the record to merge into by it, so two records of one converter that differ only in what the transformation removes share a key - the merge goes into the FIRST of them, whichever one actually matched, and its names are handed to the wrong record",
+                witness="records 'GO' -> .../GO: and 'go' -> .../go:, then add_prefix('go', .../go:, prefix_synonyms=['x'], merge=True): 'x' becomes a synonym of GO",
+                detail="lossy-key",
+            )
+        else:
+            ob.site(f"{km.where} {km.qualname}", "record key built from the exact field values")
     me = ("param", fn.self_name)
     ext = ("param", fn.params[1].name)
     prov = Prov(s)
